@@ -151,6 +151,9 @@ VP_HARNESS(h_tecmp)
     g_f[28 + 15] = ((CMVER) >> 16) & 0xFF;
     g_f[28 + 16] = ((CMVER) >> 24) & 0xFF;
     g_f[28 + 17] = (CMVER2) & 0xFF;
+#ifdef CMVDL
+    vp_put16(g_f + 28 + 4, CMVDL);  // the status message's vendor-data length field: concrete (may announce more than the frame holds)
+#endif
 #endif
     for (unsigned i = 0; i < N; ++i)
         buf[i] = g_f[i];
